@@ -30,7 +30,8 @@ ASSUMPTIONS = ["the table is static during one call except for the victims remov
                "ancestor was appended); the harness exercises each point separately against that answer"]
 EXHAUSTIVE = {"quick": "all 36 tables over PIDs {5,7} x ppid in {5,7,unlisted 3} x start in {10,20}, every caller, all four calls; all 36 tables "
                        "over root 2 + PIDs {5,7} x ppid in {2,5,7} x start in {10,20}, every caller, every other process as victim, every "
-                       "stat-open index 0..3 (children), 0..2 (parent), 0..6 (parents)",
+                       "stat-open index 0..3 (children), 0..2 (parent), 0..6 (parents); all 36 tables over PIDs {1,2} x ppid in {1,2,unlisted 0} x "
+                       "start tick in {0,1}, every caller, all four calls, cold and after [create_time(), clock step +100 s, boot_time()]",
               "thorough": "all 1728 tables over PIDs {4,6,9} x ppid in {4,6,9,unlisted 2} x start in {10,20,30}, every caller, all four calls; "
                           "the same vanish-point enumeration as quick"}
 CASE_TIMEOUT = 30
@@ -418,7 +419,7 @@ def _vanish_exhaustive():
 
 
 def gen_cases(rng, tier):
-    n_rand = {"quick": 500, "thorough": 14000, "search": 2500}[tier]
+    n_rand = {"quick": 350, "thorough": 14000, "search": 2500}[tier]
     max_hang = {"quick": 40, "thorough": 400, "search": 40}[tier]
     cases = []
     hang = 0
@@ -438,8 +439,8 @@ def gen_cases(rng, tier):
         cases.extend(_vanish_exhaustive())
         cases.extend(_tick0_exhaustive())
     # ---- multi-step histories (warm process_iter() cache) and vanish points
-    n_hist = {"quick": 300, "thorough": 4000, "search": 800}[tier]
-    n_van = {"quick": 250, "thorough": 4000, "search": 600}[tier]
+    n_hist = {"quick": 200, "thorough": 4000, "search": 800}[tier]
+    n_van = {"quick": 150, "thorough": 4000, "search": 600}[tier]
     for _ in range(n_hist):
         cases.append(_history_case(rng))
     for _ in range(n_van):
